@@ -50,7 +50,8 @@ func c04Packing(c *Ctx) {
 		if nP == 1 && c.rng.Intn(2) == 0 {
 			cfg.w = 10 + c.rng.Intn(21)
 		}
-		args := fmt.Sprintf("%s minLogN=%d w=%d", ps.hdr(), minLogN, cfg.w)
+		args := fmt.Sprintf("%s minLogN=%d w=%d eval=%s", ps.hdr(), minLogN, cfg.w, c04PackEvalName(r))
+		c.Count("packing:eval=" + c04PackEvalName(r))
 		c.Count(fmt.Sprintf("packing:logN%d:min%d:Q%d:P%d:w%d", logN, minLogN, nQ, nP, cfg.w))
 
 		sk := rlwe.NewKeyGenerator(ps.params).GenSecretKeyNew()
@@ -65,7 +66,7 @@ func c04Packing(c *Ctx) {
 			rpk.GenRepackEvaluationKeys(rpk.Parameters[minLogN], ski[minLogN], cfg.evkParams())
 			rpk.GenRepackEvaluationKeys(rpk.Parameters[logN], ski[logN], cfg.evkParams())
 			rpk.GenExtractEvaluationKeys(rpk.Parameters[minLogN], ski[minLogN], cfg.evkParams())
-			eval = rlwe.NewRingPackingEvaluator(rpk)
+			eval = c04PackEval(rlwe.NewRingPackingEvaluator(rpk), r)
 			return "ok"
 		})
 		if setup != "ok" {
@@ -81,6 +82,9 @@ func c04Packing(c *Ctx) {
 		}
 		bound := ps.ksNoiseBound(lvl, cfg.lp, cfg.w, shape)
 		class := c04Classify(ps, cfg, lvl, shape)
+		if class == "" && r%3 != 0 {
+			class = "C04-ringpacking-" + c04PackEvalName(r) // failing only through a copied evaluator
+		}
 
 		// ---- Split: ctN[X] = even[Y] + X*odd[Y]
 		{
@@ -147,7 +151,7 @@ func c04Packing(c *Ctx) {
 		// ---- Extract / ExtractNaive / Expand / Repack∘Extract over families of index sets.
 		// Extract (non naive): ciphertext i decrypts to EXACTLY c[i]*X^0 — every other coefficient is zero within noise.
 		rpk.GenExtractEvaluationKeys(rpk.Parameters[logN], sk, cfg.evkParams()) // for Expand at the large ring
-		eval = rlwe.NewRingPackingEvaluator(rpk)
+		eval = c04PackEval(rlwe.NewRingPackingEvaluator(rpk), r)
 		{
 			N := ps.N()
 			type idxSet struct {
@@ -193,13 +197,13 @@ func c04Packing(c *Ctx) {
 			b := new(big.Int).Mul(new(big.Int).Add(bound, big.NewInt(8)), big.NewInt(nks*int64(N)*int64(N)))
 			halfQ := c04ProdBig(ps.Q[:lvl+1])
 			halfQ.Rsh(halfQ, 1)
-			vac := new(big.Int).Add(b, big.NewInt(1<<18)).Cmp(halfQ) >= 0
+			vac := new(big.Int).Add(new(big.Int).Mul(b, big.NewInt(4)), big.NewInt(1<<32)).Cmp(halfQ) >= 0
 			for _, st := range sets {
 				if vac {
 					c.Count("probe-vacuous:extract_decrypts")
 					break
 				}
-				m := c04SmallVec(c, N, 1<<17)
+				m := c04SmallVec(c, N, 1<<30) // messages far above the noise bound: a misplaced coefficient is visible
 				ntt := c.rng.Intn(2) == 0
 				mk := func() *rlwe.Ciphertext {
 					return ps.mkCt(sk, m, c04SmallVec(c, N, 3), [][][]uint64{ps.randRows(c, lvl)}, ntt)
@@ -351,7 +355,7 @@ func c04Packing(c *Ctx) {
 				if !c.Thorough() && g > 3 && c.rng.Intn(2) == 0 {
 					continue
 				}
-				m := c04SmallVec(c, N, 1<<17)
+				m := c04SmallVec(c, N, 1<<30) // messages far above the noise bound: a misplaced coefficient is visible
 				ntt := c.rng.Intn(2) == 0
 				ct := ps.mkCt(sk, m, c04SmallVec(c, N, 3), [][][]uint64{ps.randRows(c, lvl)}, ntt)
 				var cts map[int]*rlwe.Ciphertext
@@ -630,4 +634,20 @@ func c04ProbeNoiseAt(c *Ctx, ps *c04PS, name, args string, out *rlwe.Ciphertext,
 		key = class
 	}
 	c.Probe(name, args, key, detail)
+}
+
+// c04PackEval: the ring-packing probes run through the evaluator itself, a ShallowCopy of it, and a copy of a copy
+// (rotating with the round), since users obtain evaluators that way for concurrent use.
+func c04PackEval(e *rlwe.RingPackingEvaluator, round int) *rlwe.RingPackingEvaluator {
+	switch round % 3 {
+	case 1:
+		return e.ShallowCopy()
+	case 2:
+		return e.ShallowCopy().ShallowCopy()
+	}
+	return e
+}
+
+func c04PackEvalName(round int) string {
+	return []string{"original", "ShallowCopy", "ShallowCopy.ShallowCopy"}[round%3]
 }
